@@ -380,6 +380,7 @@ def gen(ctx):
     # text renderers on an object that carries every extension the builders compose; identifier <-> name tables
     for kind in ("cert", "crl", "req"):
         add("printall %s" % kind, "printall:" + kind)
+    add("printall gn", "printall:constructed-general-name-not-rendered")
     for tab in ("name_type", "ext_id", "qualifier_id", "cert_policy_id", "key_purpose", "access_method", "crl_entry_ext_id", "crl_ext_id",
                 "crl_reason", "key_usage", "revoke_reason_flag", "version", "key_purpose_text"):
         add("names %s" % tab, "names:" + tab)
